@@ -1,15 +1,15 @@
 SPECIFICATION Spec
 CONSTANTS
-  P = 3
+  P = 1
   B = 2
-  KK = 3
+  KK = 1
   N1 = 1
-  N2 = 1
-  N3 = 1
+  N2 = 0
+  N3 = 0
   N4 = 0
   NParts <- NPartsDef
-  Clear = TRUE
-  Split = FALSE
+  Clear = FALSE
+  Split = TRUE
   SkelBarrierOnWorld = FALSE
   RootIsLowest = TRUE
   StatusEverywhere = TRUE
